@@ -151,6 +151,7 @@ func fRunPlan(t *testing.T, plan fPlan) (run fRun) {
 			return 0
 		}
 		intSeen := map[string]int{}
+		intPrev := map[int]string{}
 		srv.Hooks.Fault = func(c *fakeredis.Conn, req int, argv []string) fakeredis.Fault {
 			uid := fUIDOf(argv)
 			cm, ok := byUID[uid]
@@ -160,9 +161,17 @@ func fRunPlan(t *testing.T, plan fPlan) (run fRun) {
 					mu.Lock()
 					n := intSeen[name]
 					intSeen[name] = n + 1
+					// "PING@UNSUB": the PING the client sends right behind an (P|S)UNSUBSCRIBE on the same connection
+					after, nAfter := "", 0
+					if strings.HasSuffix(intPrev[c.ID], "UNSUBSCRIBE") && name == "PING" {
+						after = "PING@UNSUB"
+						nAfter = intSeen[after]
+						intSeen[after] = nAfter + 1
+					}
+					intPrev[c.ID] = name
 					mu.Unlock()
 					for _, f := range plan.IntFaults {
-						if f.Cmd == name && f.Nth == n {
+						if (f.Cmd == name && f.Nth == n) || (after != "" && f.Cmd == after && f.Nth == nAfter) {
 							switch f.Kind {
 							case "drop-before":
 								return fakeredis.Fault{Kind: fakeredis.DropBeforeExec}
